@@ -75,6 +75,7 @@ type ApproveSpec struct {
 	Approvers []string `json:"approvers,omitempty"`
 	Dismissed []string `json:"dismissed,omitempty"`
 	Remove    bool     `json:"remove,omitempty"`
+	Tag       bool     `json:"tag,omitempty"`     // the change is the creation of a tag: `to` is the commit the tag points to
 	Lift      bool     `json:"lift,omitempty"`    // adversary: signatures lifted from the envelope of another change (StoreFrom/StoreTo)
 	Misfile   bool     `json:"misfile,omitempty"` // adversary: a validly signed statement for this change stored under the path of (StoreRef, StoreFrom, StoreTo)
 }
@@ -96,6 +97,9 @@ type EntryTruth struct {
 	Policy   *PolicySpec // set on refs/gittuf/policy entries produced by apply
 	Att      *AttState   // set on refs/gittuf/attestations entries: the approvals that state holds
 	Numbered bool
+	// tag entries: the commit the recorded tag object points to and who signed the tag object
+	TagCommit string
+	TagSigner int
 }
 
 // Review is a code-review approval as the simulator stored it.
@@ -175,6 +179,7 @@ type World struct {
 	Verdicts    map[int]Verdict
 	Att         *AttState // current attestation ground truth
 	pendingAtt  *AttState
+	pendingTag  *tagTruth
 	stagedSpecs map[string]*PolicySpec
 }
 
@@ -474,6 +479,9 @@ func (w *World) SyncTruth(opID, actor int, signer int, pol *PolicySpec) []*RawEn
 		if r.Ref == policy.PolicyRef && pol != nil {
 			t.Policy = pol
 		}
+		if w.pendingTag != nil && r.Kind == "reference" && strings.HasPrefix(r.Ref, "refs/tags/") {
+			t.TagCommit, t.TagSigner = w.pendingTag.commit, w.pendingTag.signer
+		}
 		if r.Ref == attestations.Ref && (r.Kind == "reference") {
 			if w.pendingAtt != nil {
 				w.Att = w.pendingAtt
@@ -486,6 +494,11 @@ func (w *World) SyncTruth(opID, actor int, signer int, pol *PolicySpec) []*RawEn
 		w.AllByOp[opID] = append(w.AllByOp[opID], t)
 	}
 	return fresh
+}
+
+type tagTruth struct {
+	commit string
+	signer int
 }
 
 // ---- user commits ----
